@@ -6,14 +6,14 @@
 cd "$(dirname "$0")"
 [ $# -eq 0 ] && set -- benign/C*/
 for d in "$@"; do
-  d=${d%/}
+  d=$(realpath ${d%/})
   [ -f $d/meta.json ] || continue
   SKIP_CONFIRM=1 SEEDRUN_OUT=$d/benign.json ./seedrun.py $d C01 C02 C03 C04 C05 C06 C07 C08 C09 C10 C11 C12 C13 C14 C15 C16 C17 C18 C19 C20 > $d/benign.log 2>&1
   python3 - $d <<'PY'
 import json,sys
 r=json.load(open(sys.argv[1]+'/benign.json'))
 bad={p:(v['exit'],[l.strip()[:140] for l in v['lines'] if 'key:' in l or 'BROKEN' in l or 'INCONCL' in l or 'BUILD' in l][:3]) for p,v in r.get('checks',{}).items() if v['exit']!=0}
-print(sys.argv[1], 'applies', r.get('applies'), 'builds', r.get('builds'), 'ALARMS' if bad else 'silent', bad if bad else '', flush=True)
+print(sys.argv[1].split('/')[-1], 'applies', r.get('applies'), 'builds', r.get('builds'), 'ALARMS' if bad else 'silent', bad if bad else '', flush=True)
 PY
   rm -f $d/benign.log
 done
